@@ -48,6 +48,8 @@ class Link:
 
 
 class World:
+    hang_count = 0  # number of Buffer.process calls stopped by the CPU watchdog in this process
+
     def __init__(self, specs, handlers=None, now="2024-01-01T00:00:00", guard_buffers=False):
         import indi.message as M
         from indi.routing import Router
@@ -92,6 +94,7 @@ class World:
         orig = B.Buffer.process
 
         def handler(signum, frame):
+            World.hang_count += 1
             raise Hang("Buffer.process did not return within %ss of CPU time" % cpu_limit)
 
         def guarded(buf, callback):
